@@ -141,10 +141,10 @@ def execute(c):
             usable.append(len(objs) - 1)
         steps.append(["apply", op, arg, srcs, [int(p) for p in r.pid()], int(lib.ids_ok(r)), [digest(o) for o in objs], heap.classes(r)])
         # perturbation: assign through a node handle of the result or of a source
-        target = len(objs) - 1 if (k + c["cid"]) % 2 == 0 else srcs[-1] - 1
+        target = len(objs) - 1 if (k + lib.vid(c)) % 2 == 0 else srcs[-1] - 1
         tt = objs[target]
-        nd = tt.node((k + c["cid"]) % len(tt))
-        col = ["x", "r", "type"][(k + c["cid"]) % 3]
+        nd = tt.node((k + lib.vid(c)) % len(tt))
+        col = ["x", "r", "type"][(k + lib.vid(c)) % 3]
         if col == "type":
             nd.type = int(nd.type) + 1
         elif col == "x":
